@@ -263,3 +263,42 @@ PROPS["C25"] = dict(
         "independent PS3.8 parser of the written bytes", "AE titles longer than 16 bytes are silently truncated by resize(16)",
     ],
 )
+
+# ----------------------------------------------------------------------- C11
+_PV = "core/src/value/primitive.rs"
+_SRC = ["u8", "u16", "i16", "u32", "i32", "u64", "i64"]
+_DST = ["u8", "i8", "u16", "i16", "u32", "i32", "u64", "i64"]
+_ALL_TO_INT = ["c11::c11_to_int_%s_%s" % (s, d) for s in _SRC for d in _DST]
+_QUICK_TO_INT = ["c11::c11_to_int_%s_%s" % t for t in
+                 [("u16", "u8"), ("i16", "u16"), ("u32", "i32"), ("i32", "u32"), ("u64", "i64"), ("i64", "u64"),
+                  ("u8", "i8"), ("u64", "u8"), ("i64", "i8"), ("u32", "u16"), ("i32", "i16"), ("i16", "i8"),
+                  ("u16", "i16"), ("i64", "i32"), ("u64", "u32"), ("u8", "u64")]]
+PROPS["C11"] = dict(
+    level="proof",
+    units=[
+        K("C11.to_int", "ext", _QUICK_TO_INT,
+          "PrimitiveValue::to_int::<T>() on a one-item binary integer value, any stored number: Ok(v) <=> representable in T, "
+          "and then v is exactly the stored number (never wrapped or truncated)",
+          fns=[(_PV, "to_int", r"impl\s+PrimitiveValue")], timeout=600),
+        K("C11.to_int_all", "ext", [h for h in _ALL_TO_INT if h not in _QUICK_TO_INT],
+          "the remaining source x target combinations (7 sources x 8 targets in total)", tier="thorough", timeout=600),
+        K("C11.first_and_empty", "ext", ["c11::c11_to_int_first_of_two", "c11::c11_to_int_empty"],
+          "single-valued conversion returns the first of two items; Empty / no items => Err"),
+        K("C11.multi", "ext",
+          ["c11::c11_multi_int_u16_u8_n0", "c11::c11_multi_int_u16_u8_n1", "c11::c11_multi_float64_i32_n2",
+           "c11::c11_multi_float32_u16_n2"],
+          "to_multi_int / to_multi_float32 / to_multi_float64: exactly one result per stored value, in order; no items => empty list",
+          fns=[(_PV, "to_multi_int", r"impl\s+PrimitiveValue"), (_PV, "to_multi_float32", r"impl\s+PrimitiveValue"),
+               (_PV, "to_multi_float64", r"impl\s+PrimitiveValue")],
+          complete=False, bound="0, 1 or 2 items (concrete lengths), contents symbolic; to_multi_int with >= 2 items exceeds the CBMC budget"),
+        K("C11.modify", "ext",
+          ["c11::c11_truncate_u16_n3", "c11::c11_extend_u16_onto_u16", "c11::c11_extend_u16_onto_u8", "c11::c11_extend_u16_onto_empty"],
+          "truncate keeps the first min(n, limit) items; extend_u16 appends the numbers cast to the value's type",
+          fns=[(_PV, "truncate", r"impl\s+PrimitiveValue"), (_PV, "extend_u16", r"impl\s+PrimitiveValue")],
+          complete=False, bound="values of 1-3 items, 1 appended number; only the U16/U8/Empty targets of extend_u16"),
+    ],
+    assumptions=["error values are forgotten, never dropped or formatted in the harness; Backtrace capture stubbed",
+                 "num_traits::NumCast is compiled and checked (not trusted)"],
+    uncovered=["textual numbers (str::parse after trimming)", "to_float32/64 single conversions", "extend_i16/_i32/_u32/_f32/_f64/_str",
+               "DataElement / Value wrappers in header.rs and value/mod.rs (thin delegations)"],
+)
